@@ -303,6 +303,13 @@ func checkCase(c Case) (out evid.Outcome) {
 		b.walk(c.Program)
 		return nil
 	}()
+	if perr != nil && hasLowerMethod(c.Program) {
+		// a method name in another spelling than the standard upper-case one: that
+		// Route / Routes take it is not part of the statement
+		out.Excluded++
+		out.Classes = append(out.Classes, "method-spelling-refused")
+		return out
+	}
 	if perr != nil {
 		return evid.Fail("program-rejected", "the program panicked at registration although all its routes are distinct and valid: %v; program %s", perr, js(c))
 	}
@@ -361,8 +368,18 @@ func checkCase(c Case) (out evid.Outcome) {
 				}
 				// the first probe is an instance of the route: flatten says exactly
 				// which handlers run for which method
-				if inst == probes(path)[0] && !competing {
+				if inst == probes(path)[0] && !competing && m == strings.ToUpper(m) {
 					want, registered := expect[m+" "+path]
+					if registered && len(pt) > 0 {
+						wp := wantParams(path)
+						// (keys left behind by alternatives the matcher tried and abandoned
+						// are C02's business; the route's own binds are held here)
+						for k, wv := range wp {
+							if pp[k] != wv {
+								return fail(out, "params-expected", "%s: the handlers saw %s=%q, the probe was built with %q; all: %s", desc, k, pp[k], wv, rt.Show(pp))
+							}
+						}
+					}
 					if registered == pnf {
 						return fail(out, "dispatch", "%s: flat expansion registered=%v but the program's not-found ran=%v; program %s", desc, registered, pnf, js(c))
 					}
@@ -390,6 +407,38 @@ func checkCase(c Case) (out evid.Outcome) {
 	if nestedSiblings {
 		out.NonTrivial = true
 		out.Classes = append(out.Classes, "siblings-in-nested-group")
+	}
+	return out
+}
+
+func hasLowerMethod(nodes []Node) bool {
+	for _, n := range nodes {
+		for _, m := range n.Methods {
+			if m != strings.ToUpper(m) {
+				return true
+			}
+		}
+		if hasLowerMethod(n.Children) {
+			return true
+		}
+	}
+	return false
+}
+
+// wantParams: the parameters of the first probe of a route, from the values
+// the probe was built from.
+func wantParams(path string) map[string]string {
+	out := map[string]string{}
+	for _, s := range rt.Deriv(path).Segs {
+		k, binds, _ := s.Classify()
+		switch k {
+		case model.KPlaceholder:
+			out[binds[0]] = "v-" + binds[0]
+		case model.KMatchAll:
+			out[binds[0]] = "a/b"
+		case model.KRegex:
+			out[binds[0]] = "42"
+		}
 	}
 	return out
 }
@@ -527,7 +576,7 @@ func (g *gstate) nodes(t *rapid.T, depth int, own string, bare bool) []Node {
 		k := rapid.IntRange(0, 11).Draw(t, "nk")
 		spare := rapid.Bool().Draw(t, "spare")
 		switch {
-		case k < 3 && depth < 3:
+		case k < 3 && depth < 7 && (depth < 3 || rapid.IntRange(0, 1).Draw(t, "deeper") == 0):
 			gp := []string{"", "/g", "/api", "/v1"}[rapid.IntRange(0, 3).Draw(t, "gp")]
 			if rapid.IntRange(0, 4).Draw(t, "gdyn") == 0 {
 				g.bindN++
@@ -613,7 +662,10 @@ func (g *gstate) nodes(t *rapid.T, depth int, own string, bare bool) []Node {
 				}
 			}
 		default:
-			g.autoHead = !g.autoHead
+			// (switching on what is on, or off what is off, changes nothing)
+			if rapid.IntRange(0, 3).Draw(t, "same") != 0 {
+				g.autoHead = !g.autoHead
+			}
 			out = append(out, Node{K: "autohead", On: g.autoHead})
 		}
 	}
@@ -636,47 +688,94 @@ func TestProp(t *testing.T) {
 	})
 }
 
-// TestComboRepeat: Combo refuses the same method twice.
+// comboCall declares method m on a Combo route.
+func comboCall(cr *flamego.ComboRoute, m string, h flamego.Handler) {
+	switch m {
+	case "GET":
+		cr.Get(h)
+	case "POST":
+		cr.Post(h)
+	case "PUT":
+		cr.Put(h)
+	case "DELETE":
+		cr.Delete(h)
+	case "PATCH":
+		cr.Patch(h)
+	case "OPTIONS":
+		cr.Options(h)
+	case "HEAD":
+		cr.Head(h)
+	case "CONNECT":
+		cr.Connect(h)
+	case "TRACE":
+		cr.Trace(h)
+	default:
+		panic("harness: method " + m)
+	}
+}
+
+// RepeatCase: methods declared on one Combo (inside a group or not), one of
+// them declared a second time at the end.
+type RepeatCase struct {
+	Methods []string `json:"methods"` // distinct
+	Again   int      `json:"again"`   // index into Methods
+	Group   bool     `json:"in_group,omitempty"`
+}
+
+func checkRepeat(c RepeatCase) evid.Outcome {
+	f := flamego.NewWithLogger(io.Discard)
+	ran := ""
+	path := "/c"
+	var refused interface{}
+	declare := func() {
+		cr := f.Combo("/c")
+		for _, m := range c.Methods {
+			m := m
+			comboCall(cr, m, func() { ran += "first-" + m })
+		}
+		func() {
+			defer func() { refused = recover() }()
+			comboCall(cr, c.Methods[c.Again], func() { ran += "second" })
+		}()
+	}
+	if c.Group {
+		path = "/g/c"
+		f.Group("/g", declare)
+	} else {
+		declare()
+	}
+	out := evid.Outcome{Classes: []string{"combo-repeat"}, NonTrivial: len(c.Methods) > 1, Sub: len(c.Methods)}
+	if c.Again < len(c.Methods)-1 {
+		out.Classes = append(out.Classes, "combo-repeat-not-the-last-declared")
+	}
+	if refused == nil {
+		return evid.Fail("combo-repeat", "Combo accepted %s a second time after %v", c.Methods[c.Again], c.Methods)
+	}
+	// what had been declared still answers, each method with its own handler
+	for _, m := range c.Methods {
+		ran = ""
+		f.ServeHTTP(rt.NewSpy(), rt.NewRequest(m, path, nil))
+		if ran != "first-"+m {
+			return evid.Fail("combo-repeat-damage", "after the refused second %s: %s %s ran %q, want the handler declared first for %s; methods %v", c.Methods[c.Again], m, path, ran, m, c.Methods)
+		}
+	}
+	return out
+}
+
+// TestComboRepeat: Combo refuses the same method twice - also when other
+// methods were declared in between, also inside a group - and what was
+// declared before keeps answering.
 func TestComboRepeat(t *testing.T) {
 	for _, m := range model.Methods {
-		f := flamego.NewWithLogger(io.Discard)
-		cr := f.Combo("/c")
-		call := func() {
-			switch m {
-			case "GET":
-				cr.Get(func() {})
-			case "POST":
-				cr.Post(func() {})
-			case "PUT":
-				cr.Put(func() {})
-			case "DELETE":
-				cr.Delete(func() {})
-			case "PATCH":
-				cr.Patch(func() {})
-			case "OPTIONS":
-				cr.Options(func() {})
-			case "HEAD":
-				cr.Head(func() {})
-			case "CONNECT":
-				cr.Connect(func() {})
-			case "TRACE":
-				cr.Trace(func() {})
-			}
-		}
-		call()
-		m := m
-		evid.Run(t, "combo-repeat", map[string]string{"method": m}, func() evid.Outcome {
-			var p interface{}
-			func() {
-				defer func() { p = recover() }()
-				call()
-			}()
-			if p == nil {
-				return evid.Fail("combo-repeat", "Combo accepted %s twice", m)
-			}
-			return evid.Outcome{Classes: []string{"combo-repeat"}}
-		})
+		c := RepeatCase{Methods: []string{m}}
+		evid.Run(t, "combo-repeat", c, func() evid.Outcome { return checkRepeat(c) })
 	}
+	evid.Rapid(t, "combo-repeat", 600, 6000, func(t *rapid.T) {
+		perm := rapid.Permutation(model.Methods).Draw(t, "methods")
+		c := RepeatCase{Methods: perm[:rapid.IntRange(1, 5).Draw(t, "n")], Group: rapid.Bool().Draw(t, "group")}
+		c.Again = rapid.IntRange(0, len(c.Methods)-1).Draw(t, "again")
+		evid.Run(t, "combo-repeat", c, func() evid.Outcome { return checkRepeat(c) })
+	})
 }
 
 func TestPinned(t *testing.T) {
@@ -701,6 +800,13 @@ func TestPinned(t *testing.T) {
 
 func TestReplay(t *testing.T) {
 	evid.Replay(t, map[string]evid.ReplayFn{
+		"combo-repeat": func(raw json.RawMessage) evid.Outcome {
+			var c RepeatCase
+			if err := json.Unmarshal(raw, &c); err != nil {
+				panic(err)
+			}
+			return checkRepeat(c)
+		},
 		"program": func(raw json.RawMessage) evid.Outcome {
 			var c Case
 			if err := json.Unmarshal(raw, &c); err != nil {
